@@ -11,7 +11,8 @@ an optional channel.  Slot indices are `Bool` (`false` = slot 0, `true` = slot 1
 (it asserts `len < 2` on both sides before using `len` as the index).  Gates are referred to by
 `Nat` identifiers (the code uses `Arc` pointers; `Arc::ptr_eq` is `=` here).
 
-A channel is represented by the delay it adds to a message on an idle link (`Option Nat`, ns):
+A channel is represented by the delay it adds to the (fixed-size) test message on an idle link
+(`Option Nat`, ns; latency + transmission time `8·len / bitrate`, jitter 0):
 `Channel::send_message` on a non-busy channel schedules `MessageExitingConnection { con: via }` at
 `now + delay`; the channel's own accounting (busy / queue / drop) is property C07's model.
 -/
@@ -170,6 +171,28 @@ def forward (net : Net) (owner : Nat → Nat) (active : Nat → Nat → Bool) (s
 def send (net : Net) (owner : Nat → Nat) (active : Nat → Nat → Bool) (sender : Nat) (fuel : Nat) (g : Nat)
     (sendTime : Nat) : Fate :=
   if (net g).len ≤ 1 then forward net owner active sender fuel g true sendTime (some g) else .sendPanic
+
+/-- `forward` when the wiring changes while the simulation runs (`connect` called from module
+    code): `netAt t` is the wiring at time `t`; every `next_hop` reads the slots as they are at the
+    moment the message stands on the gate. -/
+def forwardT (netAt : Nat → Net) (owner : Nat → Nat) (active : Nat → Nat → Bool) (sender : Nat) :
+    Nat → Nat → Bool → Nat → Option Nat → Fate
+  | 0, _, _, _, _ => .outOfFuel
+  | fuel + 1, g, came, t, last =>
+    match nextHop (netAt t) g came with
+    | none => .handled (owner g) t last (active (owner g) t) sender
+    | some next =>
+      if !active (owner g) t then .dropped g t
+      else forwardT netAt owner active sender fuel next.peer next.peerSlot (t + next.chan.getD 0) (some next.peer)
+
+/-- `send_at(msg, gate, send_time)` issued at time `issue ≤ sendTime`: `Connection::new(gate)` is
+    built — and its assertion evaluated — when the call is made; it only names the gate
+    (`endpoint_id = 1` is a constant), so a delayed send resolves its chain when the
+    `MessageExitingConnection` event fires, with the wiring of that moment. -/
+def sendIssued (netAt : Nat → Net) (owner : Nat → Nat) (active : Nat → Nat → Bool) (sender : Nat)
+    (fuel : Nat) (g : Nat) (issue sendTime : Nat) : Fate :=
+  if (netAt issue g).len ≤ 1 then forwardT netAt owner active sender fuel g true sendTime (some g)
+  else .sendPanic
 
 /-- total delay of the channels on a list of hops -/
 def delaySum (hops : List Conn) : Nat := (hops.map (·.chan.getD 0)).sum
